@@ -167,6 +167,56 @@ def apply_edit(pkg: M.Package, rng: Rng, kind: str, only=None, only_steps=None):
         old = a.type
         a.type = _w(a.type)
         return "widen_alias %s %r->%r" % (a.name, old, a.type)
+    if kind in ("narrow_union", "widen_to_union"):
+        # [T, U] -> T (also as the element of a vector), and T -> [T, U]: "adding or removing types to/from a union", with the
+        # scalar as the degenerate union.  Sites: record fields and protocol steps (only / only_steps restrict them).
+        def _narrow(t):
+            if isinstance(t, Union) and not t.nullable and len(t.cases) >= 2 and all(isinstance(c, Prim) for _, c in t.cases):
+                return rng.choice([c for _, c in t.cases])
+            if isinstance(t, Vec) and t.length is None and _narrow_ok(t.inner):
+                return Vec(rng.choice([c for _, c in t.inner.cases]))
+            return None
+
+        def _narrow_ok(t):
+            return isinstance(t, Union) and not t.nullable and len(t.cases) >= 2 and all(isinstance(c, Prim) for _, c in t.cases)
+
+        def _widen(t):
+            if isinstance(t, Prim) and t.name in ("int32", "string", "float64", "bool"):
+                other = rng.choice([x for x in ("int32", "string", "float64", "bool") if x != t.name])
+                cases = [(t.name, t), (other, Prim(other))]
+                if rng.chance(0.5):
+                    cases.reverse()
+                return Union(tuple(cases))
+            return None
+        f = _narrow if kind == "narrow_union" else _widen
+        cands = []
+        for r in recs:
+            for i, (n, t) in enumerate(r.fields):
+                if (only_steps is None) and (_narrow_ok(t) or (isinstance(t, Vec) and t.length is None and _narrow_ok(t.inner)) if kind == "narrow_union" else (isinstance(t, Prim) and n.startswith("evowiden"))):
+                    cands.append(("f", r, i))
+        for p_ in _protocols(pkg):
+            for i, (n, t, st) in enumerate(p_.steps):
+                if only_steps is not None and n not in only_steps:
+                    continue
+                ok = (_narrow_ok(t) or (isinstance(t, Vec) and t.length is None and _narrow_ok(t.inner) and not st)) if kind == "narrow_union" else (isinstance(t, Prim) and only_steps is not None)
+                if ok:
+                    cands.append(("s", p_, i))
+        if not cands:
+            return None
+        what, d, i = rng.choice(cands)
+        if what == "f":
+            n, t = d.fields[i]
+            nt = f(t)
+            if nt is None:
+                return None
+            d.fields[i] = (n, nt)
+        else:
+            n, t, st = d.steps[i]
+            nt = f(t)
+            if nt is None:
+                return None
+            d.steps[i] = (n, nt, st)
+        return "%s %s.%s %r -> %r" % (kind, d.name, n, t, nt)
     if kind == "make_optional":
         cands = [(r, i) for r in recs for i, (_, t) in enumerate(r.fields) if isinstance(t, Prim)]
         if not cands:
@@ -325,7 +375,7 @@ def evolve(pkg: M.Package, rng: Rng, n: int, kinds) -> tuple:
 RECORD_EDITS = ["add_optional_field", "remove_optional_field", "reorder_fields", "add_field", "remove_field", "widen_field", "make_optional", "widen_vector_field", "make_required"]
 
 
-def with_versions(pkg: M.Package, rng: Rng, n_versions: int, partial: bool, must_edit=(), order="oldest_first", p_new_protocol=0.0, layout="siblings", widen_steps=(), widen_aliases=()) -> M.Package:
+def with_versions(pkg: M.Package, rng: Rng, n_versions: int, partial: bool, must_edit=(), order="oldest_first", p_new_protocol=0.0, layout="siblings", widen_steps=(), widen_aliases=(), union_steps=(), to_union_steps=()) -> M.Package:
     """Treat pkg as the oldest version; evolve it n_versions times; the newest package lists all
     its predecessors under `versions:`.  Returns the newest package.
     must_edit: names of records that each get at least one record edit in every evolution step."""
@@ -353,6 +403,19 @@ def with_versions(pkg: M.Package, rng: Rng, n_versions: int, partial: bool, must
                 d = apply_edit(cur, r5, "widen_alias", only=(name,))
                 if d:
                     l.append(d)
+        r6 = rng.fork("unions", i)
+        if partial and union_steps and r6.chance(0.5):
+            d = apply_edit(cur, r6, "narrow_union", only_steps=tuple(r6.sample(list(union_steps), r6.randint(1, len(union_steps)))))
+            if d:
+                l.append(d)
+        if partial and union_steps and r6.chance(0.3):
+            d = apply_edit(cur, r6, "narrow_union")            # (a record field)
+            if d:
+                l.append(d)
+        if partial and to_union_steps and r6.chance(0.4):
+            d = apply_edit(cur, r6, "widen_to_union", only_steps=tuple(r6.sample(list(to_union_steps), 1)))
+            if d:
+                l.append(d)
         r2 = rng.fork("must", i)
         for name in must_edit:
             for _ in range(8):
